@@ -85,7 +85,7 @@ pub fn reverse_arm<T: GlyphData, F: Fn(&RawGlyph<T>) -> bool>(subtables: &Vec<Re
 pub fn multiplesubst<T: GlyphData>(subtables: &Vec<MultipleSubst>, i: usize, glyphs: &mut Vec<RawGlyph<T>>) -> (r: Result<Option<usize>, ParseError>)
     requires i < old(glyphs)@.len(), old(glyphs)@.len() <= usize::MAX / 2
     ensures
-        r is Ok && r->Ok_0 is Some ==> final(glyphs)@.len() == old(glyphs)@.len() + r->Ok_0->Some_0 - 1,
+        r is Ok && r->Ok_0 is Some ==> final(glyphs)@.len() == old(glyphs)@.len() + r->Ok_0->Some_0 - 1 && r->Ok_0->Some_0 <= usize::MAX / 2,
         !(r is Ok && r->Ok_0 is Some) ==> final(glyphs)@.len() == old(glyphs)@.len(),
         final(glyphs)@.len() <= usize::MAX / 2,
 { unimplemented!() }
